@@ -164,7 +164,9 @@ def run_property(prop, tier, seed, jobs, only=None):
         try:
             still = replay_known(k, reg, mods)
         except Exception as ex:
-            errors.append('cannot replay known finding %s: %r' % (k['id'], ex))
+            # the function the witness is replayed on cannot be located (renamed / restructured): the finding is neither
+            # confirmed nor refuted - undecided, not a checker error
+            undecided.append(dict(name='known-finding %s' % k['id'], reason='witness cannot be replayed: %r' % (ex,)))
         if still:
             lines.append('KNOWN-FINDING: property=%s %s [%s]' % (prop, k['what'], k['id']))
         elif still is False and k['id'] in known_hit:
